@@ -367,10 +367,12 @@ func DecPairs(opts []cat.Opts, cb bool) []*cat.Catalog {
 }
 
 // Gaps is the motif of a missing dependency far below an optional edge:
-//   c1: (T5 req|opt) -> member of T2@g     (T5 is provided by c4, or by nobody)
-//   c2: ([]T2@g hard|soft, in an object or not) -> T0
-//   c3: (T0 req|opt) -> T1
-//   i1: (T1 opt)   i2: (T0 opt)   i3: (T1 req)   i4: (T1 opt, []T2@g)
+//
+//	c1: (T5 req|opt) -> member of T2@g     (T5 is provided by c4, or by nobody)
+//	c2: ([]T2@g hard|soft, in an object or not) -> T0
+//	c3: (T0 req|opt) -> T1
+//	i1: (T1 opt)   i2: (T0 opt)   i3: (T1 req)   i4: (T1 opt, []T2@g)
+//
 // plus, optionally, a decorator of T0 or of the group that needs T6, which nobody provides.
 // An optional edge tolerates exactly the failures that are a dependency somebody did not
 // provide - through single values, through value groups and through decorators alike - and
@@ -407,6 +409,11 @@ func Gaps(opts []cat.Opts, cb bool) []*cat.Catalog {
 								if t5 != "" {
 									c.Fns["c4"] = ctor(Place{t5, false}, nil, one("T5"))
 								}
+								if c.Fns["c2"].Scope == "a" && (pi1+len(m3))%2 == 0 {
+									// the root provides T0 as well: from "a" downwards it is shadowed by
+									// c2, and stays shadowed when c2 cannot be built
+									c.Fns["c5"] = ctor(Place{"r", false}, nil, one("T0"))
+								}
 								c.Fns["i1"] = inv(par("T1", "opt", 1))
 								c.Fns["i2"] = inv(par("T0", "opt", 1))
 								c.Fns["i3"] = inv(par("T1", "req", 0))
@@ -419,6 +426,9 @@ func Gaps(opts []cat.Opts, cb bool) []*cat.Catalog {
 								ord := []string{"c1", "c2", "c3"}
 								if t5 != "" {
 									ord = append(ord, "c4")
+								}
+								if c.Fns["c5"] != nil {
+									ord = append(ord, "c5")
 								}
 								rot := (pi1 + di + len(m1) + len(gm)) % len(ord)
 								c.Order = append(append([]string(nil), ord[rot:]...), ord[:rot]...)
